@@ -293,3 +293,176 @@ def case_coq(d, nh):
 
 
 HEADER = "From Coq Require Import NArith List.\nImport ListNotations.\nFrom Molli Require Import Model.UKV.\nOpen Scope N_scope.\n"
+
+
+# ----------------------------------------------------------------------------------------------
+# Collection-level histories (UkvCollectionBackend through molli.storage.Collection)
+# ----------------------------------------------------------------------------------------------
+CKEYS = ["", "a", "b", "ab", "k" * 255, "K" * 256, "c"]
+BUFS = [-1, 0, 7, 10 ** 6]
+HEADER_B = ("From Coq Require Import NArith ZArith List.\nImport ListNotations.\n"
+            "From Molli Require Import Model.UKV Model.Backend.\nOpen Scope N_scope.\n")
+
+
+def gen_chistory(rng, cfg, maxlen=30):
+    """Sessions never overlap a writing session (the lock is per process: overlapping sessions of one
+    process are outside the claim).  Mostly-valid stream + error stream (ops outside sessions, puts through
+    read-only collections / reading sessions, duplicate and oversize keys)."""
+    nh = len(cfg)
+    ops, sess = [], [None] * nh
+    tried = []
+    n = rng.randint(2, maxlen)
+    while len(ops) < n:
+        active = [i for i in range(nh) if sess[i]]
+        writer = [i for i in range(nh) if sess[i] == "w"]
+        r = rng.random()
+        if not active or r < 0.18:
+            i = rng.randrange(nh)
+            if sess[i]:
+                continue
+            w = rng.random() < 0.65
+            if w and active:
+                j = active[0]
+                ops.append(("endw" if sess[j] == "w" else "endr", j)); sess[j] = None
+                continue
+            if (not w) and writer:
+                continue
+            if w and cfg[i][1]:
+                ops.append(("beginw", i))          # raises UnsupportedOperation, no session starts
+                continue
+            ops.append(("beginw" if w else "beginr", i)); sess[i] = "w" if w else "r"
+            continue
+        if r < 0.30:
+            i = rng.choice(active)
+            ops.append(("endw" if sess[i] == "w" else "endr", i)); sess[i] = None
+            continue
+        i = (writer[0] if writer and rng.random() < 0.8 else rng.choice(active)) if rng.random() < 0.9 else rng.randrange(nh)
+        kind = rng.choice(["put", "put", "put", "get", "get", "keys", "flush"])
+        if kind == "put":
+            fresh = [x for x in CKEYS if x not in tried]
+            k = rng.choice(fresh) if fresh and rng.random() < 0.7 else rng.choice(CKEYS)
+            tried.append(k)
+            ops.append(("put", i, k, Val(rng.randrange(256) if rng.random() < 0.8 else -1, rng.choice([0, 1, 3, 17, 300]))))
+        elif kind == "get":
+            ops.append(("get", i, rng.choice(tried) if tried and rng.random() < 0.8 else rng.choice(CKEYS)))
+        elif kind == "keys":
+            ops.append(("keys", i))
+        else:
+            ops.append(("flush", i))
+    for i in range(nh):
+        if sess[i]:
+            ops.append(("endw" if sess[i] == "w" else "endr", i))
+    return ops
+
+
+def bop_coq(o):
+    k = o[0]
+    if k in ("beginw", "endw", "beginr", "endr", "keys", "flush"):
+        return {"beginw": "BeginW", "endw": "EndW", "beginr": "BeginR", "endr": "EndR", "keys": "CKeys", "flush": "CFlush"}[k] + f" {o[1]}"
+    if k == "put":
+        return f"CPut {o[1]} {cq_bytes(o[2].encode())} {o[3].coq()}"
+    return f"CGet {o[1]} {cq_bytes(o[2].encode())}"
+
+
+def cdrive(path, ops, cfg, fault=None):
+    """Runs a collection-level history on the real implementation."""
+    import struct as _st
+    from io import UnsupportedOperation
+    from molli.storage import Collection, UkvCollectionBackend
+    from molli.storage.ukvfile import UKVFile
+    if os.path.exists(path):
+        os.remove(path)
+    UKVFile(path, "x", h2=b"lib").close()
+    init = open(path, "rb").read()
+    bof = len(init)
+    cols = [Collection(path, UkvCollectionBackend, readonly=ro, bufsize=bs) for bs, ro in cfg]
+    cms = [None] * len(cfg)
+    res, cops, viol = [], [], []
+    model = {}            # oracle: abstract map, maintained while every put is written through immediately
+    exact = True          # False once a put was left in a buffer (oracle then only checks the final file)
+    pending_ok = []       # puts that returned OK while buffered
+
+    def classify(e):
+        if isinstance(e, UnsupportedOperation): return "(BErr BUnsupported)"
+        if isinstance(e, KeyError): return "(BErr BKey)"
+        if isinstance(e, _st.error): return "(BErr BStruct)"
+        if isinstance(e, AttributeError): return "(BErr BAttr)"
+        if isinstance(e, OSError): return "(BErr BIO)"
+        return f"BOther (* {type(e).__name__} *)"
+
+    for o in ops:
+        k, i = o[0], o[1]
+        c = cols[i]
+        be = c._backend
+        try:
+            if k == "beginw":
+                cm = c.writing(timeout=5); cm.__enter__(); cms[i] = cm; r = "BOk"
+                if exact and set(c.keys()) != set(model):
+                    viol.append(("C02:collection:listing-differs", f"writing session of handle {i} lists {sorted(c.keys())[:5]}, successfully put keys are {sorted(model)[:5]}"))
+            elif k == "beginr":
+                cm = c.reading(timeout=5); cm.__enter__(); cms[i] = cm; r = "BOk"
+                if exact and set(c.keys()) != set(model):
+                    viol.append(("C02:collection:listing-differs", f"reading session of handle {i} lists {sorted(c.keys())[:5]}, successfully put keys are {sorted(model)[:5]}"))
+            elif k in ("endw", "endr"):
+                cm, cms[i] = cms[i], None
+                cm.__exit__(None, None, None); r = "BOk"
+            elif k == "put":
+                listed_before = set(c.keys())
+                c[o[2]] = o[3].b
+                r = "BOk"
+                if be._write_queue:
+                    exact = False
+                elif exact:
+                    if o[2] in model:
+                        viol.append(("C02:collection:duplicate-accepted", f"put({o[2][:8]!r}) succeeded although the key was already put"))
+                    model[o[2]] = o[3].b
+            elif k == "get":
+                listed = cms[i] is not None and be._state == "writing" and o[2] in c.keys()
+                try:
+                    v = c[o[2]]
+                except Exception as e:
+                    if listed and exact:
+                        viol.append(("C02:collection:listed-key-unreadable", f"inside a writing session key {o[2][:8]!r} is listed but get raised {type(e).__name__}"))
+                    raise
+                r = "(BVal " + (cq_bytes(v) if len(v) <= 24 else _name_val(v)) + ")"
+                if exact and model.get(o[2]) != v:
+                    viol.append(("C02:collection:wrong-bytes", f"get({o[2][:8]!r}) did not return the bytes of the one successful put"))
+            elif k == "keys":
+                ks = sorted(c.keys())
+                r = "(BKeys [" + ";".join(cq_bytes(x.encode()) for x in ks) + "])"
+                if exact and cms[i] is not None and set(ks) != set(model):
+                    viol.append(("C02:collection:listing-differs", f"handle {i} lists {ks[:5]} inside a session, successfully put keys are {sorted(model)[:5]}"))
+            elif k == "flush":
+                c.flush(); r = "BOk"
+        except Exception as e:
+            r = classify(e)
+            if k == "put" and exact and cms[i] is not None:      # use outside a session is outside the claim
+                if set(c.keys()) != listed_before:
+                    viol.append(("C02:collection:failed-put-view-changed", f"failing put({o[2][:8]!r}) -> {r} changed the key listing"))
+            if k in ("endw", "endr"):
+                pass
+        cops.append(bop_coq(o)); res.append(r)
+    for i, cm in enumerate(cms):
+        if cm is not None:
+            try:
+                cm.__exit__(None, None, None)
+            except Exception:
+                pass
+    for c in cols:
+        c._backend._write_queue.clear()       # nothing may be flushed by the atexit hook after the observation
+    final = open(path, "rb").read()
+    if final[:bof] != init:
+        viol.append(("C02:header-changed", "file header bytes changed"))
+    recs, torn = parse_file(final, bof)
+    if torn or len({k for k, _, _, _ in recs}) != len(recs):
+        viol.append(("C02:collection:file-corrupt", "final file has a torn tail or duplicate keys"))
+    if exact and {k.decode(): v for k, v, _, _ in recs} != model:
+        viol.append(("C02:collection:final-file-differs", "records in the final file are not exactly the successful puts"))
+    return dict(results=res, ops=cops, final=final, init=init, oracle=viol)
+
+
+def bcase_coq(d, cfg):
+    bof = len(d["init"])
+    cfgs = "[" + "; ".join(f"(({bs})%Z, {'true' if ro else 'false'})" for bs, ro in cfg) + "]"
+    return (f"(({bytes_coq(d['init'], bof)}, {cfgs}, [{'; '.join(d['ops'])}]), "
+            f"([{'; '.join(d['results'])}], {bytes_coq(d['final'], bof)}))")
